@@ -1010,7 +1010,9 @@ class OdeSystem(object):
         end_int = False
         self.__allocate_soln_space(total_steps)
         try:
-            while (implicit_integration or (self.dt != 0 and D.ar_numpy.abs(tf - self.__t[self.counter]) >= D.tol_epsilon(self.__y[self.counter].dtype))) and not end_int:
+            # the target also counts as reached within two ulp of it: a remaining distance of one ulp is halved into a step that
+            # cannot advance t
+            while (implicit_integration or (self.dt != 0 and D.ar_numpy.abs(tf - self.__t[self.counter]) >= D.ar_numpy.maximum(D.tol_epsilon(self.__y[self.counter].dtype), 0.5 * D.epsilon(self.__y[self.counter].dtype) * D.ar_numpy.abs(tf)))) and not end_int:
                 # the dt setter orients dt along (t0, tf) of the system; this call may be heading the other way
                 self.__fix_dt_dir(tf, self.__t[self.counter])
                 if not implicit_integration and D.ar_numpy.abs(self.dt) > D.ar_numpy.abs(tf - self.__t[self.counter]):
